@@ -109,6 +109,30 @@ CHECKS["C10"] = dict(
          "Subscriber::notify is not observed in quick tier",
     design_ref="5 C10")
 
+_REG = ("TLA+ spec Registry.tla (transcription of the incremental bookkeeping of NamingActor/Service; TLC: CountsMatch, "
+        "HealthyCountsMatch, PerpetualMatches, IndexedOnce, ClientSetSound/Complete, ArmedHealthy/Unhealthy, expiry action "
+        "properties), kind-first TLC simulation replayed on a real NamingActor / Service")
+CHECKS["C11"] = dict(
+    engine="registry", technique=_REG + "; invariants re-evaluated on the real dump after every step",
+    text="TLC checks the design of the incrementally maintained counters, sets and reverse maps over every interleaving of "
+         "the ten code paths (small constants; the pre-fix ordering is a negative control that must fail). On the real "
+         "actor the invariants are evaluated on a full dump after every step of every generated behaviour - independent of "
+         "what the model predicts - and the dump is also compared with the spec state.",
+    note="stand-alone actor (no process range, no Raft router); dump through a read-only hook", design_ref="5 C11")
+CHECKS["C12"] = dict(
+    engine="registry", technique=_REG + "; instance queries compared with the spec's QueryOf after every step",
+    text="Connection-biased behaviours (re-registration by another connection, HTTP over gRPC, deregistration with matching "
+         "and foreign client ids, disconnects in any order) run on the real actor; QueryList (healthy-only or not) and "
+         "QueryAllInstanceList must return exactly the spec's sets, returned instances carry the registered flags, and after "
+         "a disconnect exactly that connection's ephemeral instances are gone.",
+    note="actor level; the HTTP / gRPC handlers above NamingCmd are exercised in thorough tier only", design_ref="5 C12")
+CHECKS["C13"] = dict(
+    engine="registry", technique=_REG + " with a virtual clock (Service::time_check takes the thresholds) and with the real clock",
+    text="TLC checks NeverExpireWhileBeating, NeverExpireGrpcOrPersistent, ExpiredAfterSweep and that every supervised "
+         "instance is armed in a timeout queue; beat/silence/sweep behaviours run exactly on a real Service with a virtual "
+         "clock and a subset on a real NamingActor in real time.",
+    note="H = 1, T = 3 ticks in generation; propagation to other nodes is C15", design_ref="5 C13")
+
 NOT_YET = {}
 
 
